@@ -173,6 +173,7 @@ def handle (c : Json) : JE Json := do
     -- hypothesis of the run-level theorems (Props/C02.lean `workflow_at_most_once`)
     ("wf", Json.bool (Engine.DagRun.dagWFb r)),
     ("wf2", Json.bool (Engine.DagRun.dagWF2b r)),
+    ("wf3", Json.bool (Engine.DagRun.dagWF3b r)),
     ("possible", J.mkArr (ex.tasks.map fun t => Json.mkObj [("k", Json.str t.1), ("in", Json.str t.2)]))])
 
 end EinoV.Oracle.C02Workflow
